@@ -37,8 +37,8 @@ EXPLANATION = ('P1: from an arbitrary state satisfying the invariant (stack with
 MUST_REACH = ['ok', 'raise', 'put_full', 'item_too_large', 'read_past_end', 'callstack_exceeded', 'loop_limit']
 
 
-def h_step(c, pkg, op, lens):
-    st, r, summ = vmstep.generic_step(c, pkg, op, lens)
+def h_step(c, pkg, op, lens, utf8=False):
+    st, r, summ = vmstep.generic_step(c, pkg, op, lens, ascii_only=not utf8)
     E = pkg.errors
     stack, tape = st.stack, st.tape
     c.reach('ok' if r[0] == 'ok' else 'raise')
@@ -134,7 +134,18 @@ def _sig(v):
     return {'harness': v['harness'], 'obligation': v['obligation'], 'op': v['params'].get('op')}
 
 
+def _params(tier):
+    out = vmstep.generic_params(tier)
+    # the UTF-8 instructions on arbitrary bytes (multi-byte sequences: characters are not bytes)
+    for op in ('OP_CONCAT_STR', 'OP_SPLIT_STR'):
+        shapes = ([[2, 2], [4, 2], [3, 3]] if op == 'OP_CONCAT_STR' else [[2, 1], [4, 1], [3, 1]])
+        if tier != 'quick':
+            shapes = shapes + ([[4, 4], [2, 3]] if op == 'OP_CONCAT_STR' else [[6, 1]])
+        out += [{'op': op, 'lens': sh, 'utf8': True} for sh in shapes]
+    return out
+
+
 HARNESSES = [
-    HarnessSpec('step', h_step, vmstep.generic_params, replay=r_step, signature=_sig,
+    HarnessSpec('step', h_step, _params, replay=r_step, signature=_sig,
                 concrete=vmstep.concrete_observables, witness_every=3),
 ]
